@@ -76,6 +76,7 @@ func main() {
 		}
 		if !lockSkip[base] {
 			r.locks = true
+			r.skew = true
 		}
 		if r.importMap == nil && !r.locks {
 			continue
@@ -85,6 +86,19 @@ func main() {
 			dst := filepath.Join(*out, "root_"+base)
 			must(os.WriteFile(dst, src, 0o644))
 			ov[f] = dst
+		}
+	}
+	// internal/event_timer.go: timer skew only
+	{
+		f := filepath.Join(*repo, "internal", "event_timer.go")
+		if _, err := os.Stat(f); err == nil {
+			r := &rewriter{file: f, base: "event_timer.go", skew: true}
+			changed, src := r.run()
+			if changed {
+				dst := filepath.Join(*out, "internal_event_timer.go")
+				must(os.WriteFile(dst, src, 0o644))
+				ov[f] = dst
+			}
 		}
 	}
 	storeFiles, err := filepath.Glob(filepath.Join(*repo, "store", "file", "*.go"))
@@ -143,6 +157,7 @@ type rewriter struct {
 	base      string
 	importMap map[string]string
 	locks     bool
+	skew      bool // wrap timer durations with simsync.Skew
 
 	fset      *token.FileSet
 	changed   bool
@@ -180,6 +195,40 @@ func (r *rewriter) run() (bool, []byte) {
 		}
 	}
 
+	if r.skew {
+		ast.Inspect(af, func(n ast.Node) bool {
+			ce, ok := n.(*ast.CallExpr)
+			if !ok {
+				return true
+			}
+			se, ok := ce.Fun.(*ast.SelectorExpr)
+			if !ok {
+				return true
+			}
+			wrap := func(i int) {
+				if i < len(ce.Args) {
+					if inner, ok := ce.Args[i].(*ast.CallExpr); ok {
+						if ise, ok := inner.Fun.(*ast.SelectorExpr); ok && ise.Sel.Name == "Skew" {
+							return
+						}
+					}
+					ce.Args[i] = &ast.CallExpr{Fun: &ast.SelectorExpr{X: ast.NewIdent("simsync"), Sel: ast.NewIdent("Skew")}, Args: []ast.Expr{ce.Args[i]}}
+					r.needSync = true
+					r.changed = true
+				}
+			}
+			if x, ok := se.X.(*ast.Ident); ok && x.Name == "time" && se.Sel.Name == "AfterFunc" && len(ce.Args) == 2 {
+				wrap(0)
+			}
+			// t.timer.Reset(d) inside EventTimer (a *time.Timer field named timer)
+			if r.base == "event_timer.go" && se.Sel.Name == "Reset" && len(ce.Args) == 1 {
+				if xs, ok := se.X.(*ast.SelectorExpr); ok && xs.Sel.Name == "timer" {
+					wrap(0)
+				}
+			}
+			return true
+		})
+	}
 	if r.needSync {
 		addImport(af, modPath+"/verifsim/simsync")
 	}
